@@ -8,7 +8,7 @@ Require Import Cirbo.Model.ArithSub Cirbo.Model.ArithSum2 Cirbo.Model.ArithSumN 
 Require Import Cirbo.Proofs.DictFacts Cirbo.Proofs.BuilderFacts Cirbo.Proofs.ArithFacts
   Cirbo.Proofs.ArithSum2Facts Cirbo.Proofs.ArithSumCells Cirbo.Proofs.ArithSumNFacts
   Cirbo.Proofs.ArithSumTopFacts Cirbo.Proofs.ArithSumPow2Facts Cirbo.Proofs.ArithSumWFacts
-  Cirbo.Proofs.ArithSumStruct Cirbo.Proofs.ArithSumStructA Cirbo.Proofs.ArithSumStructB
+  Cirbo.Proofs.ArithSumWCount Cirbo.Proofs.ArithSumStruct Cirbo.Proofs.ArithSumStructA Cirbo.Proofs.ArithSumStructB
   Cirbo.Proofs.ArithSumStructC.
 Open Scope Z_scope.
 
@@ -83,17 +83,34 @@ Proof.
   repeat split; auto. intros E asg xv Hxv. apply (V _ (ext_refl _) E). eapply bvals_ext; eassumption.
 Qed.
 
+Lemma adds_unique T T' c c' g g' : adds T c c' g -> adds T' c c' g' -> g = g'.
+Proof. intros H H'. apply adds_size in H. apply adds_size in H'. lia. Qed.
+
+(* the documented bounds of add_sum_n_weighted_bits (fixes/D27.patch): AIG gates <= 7 n - 3 m,
+   XAIG gates <= 5 n - 2 m *)
+Definition weighted_bound (b : gen_basis) (g m n : nat) : Prop :=
+  match b with
+  | AIG => (g + 3 * m <= 7 * n)%nat
+  | XAIG => (g + 2 * m <= 5 * n)%nat
+  end.
+
 Theorem add_sum_n_weighted_bits_final fresh basis inp s res s' :
   run fresh (add_sum_n_weighted_bits basis inp) s = Ok (res, s') ->
   exists b, resolve_basis basis = Ok b /\
     ext (bc s) (bc s') /\ inputs (bc s') = inputs (bc s) /\ outputs (bc s') = outputs (bc s) /\
-    (exists g, adds (t_of b) (bc s) (bc s') g /\ (b = AIG -> (g + 3 * length res <= 7 * length inp)%nat)) /\
+    (exists g, adds (t_of b) (bc s) (bc s') g /\ weighted_bound b g (length res) (length inp)) /\
     incr res /\
     forall asg vs, bvals (bc s) asg (map snd inp) vs ->
       exists rv, bvals (bc s') asg (map snd res) rv /\ wvalue (map fst res) rv = wvalue (map fst inp) vs.
 Proof.
-  intros H. apply add_sum_n_weighted_bits_correct in H as (b & Hb & Hx & I & O & A & Inc & V).
-  exists b. repeat split; auto. intros asg vs Hvs. apply (V _ (ext_refl _)). eapply bvals_ext; eassumption.
+  intros H. pose proof H as H0.
+  apply add_sum_n_weighted_bits_correct in H as (b & Hb & Hx & I & O & (g & A & Bd) & Inc & V).
+  exists b. split; [exact Hb|]. split; [exact Hx|]. split; [exact I|]. split; [exact O|]. split.
+  - exists g. split; [exact A|]. destruct b; simpl.
+    + destruct (add_sum_n_weighted_bits_xaig_count _ _ _ _ _ _ H0 Hb) as (g' & A' & B').
+      rewrite (adds_unique _ _ _ _ _ _ A A'). exact B'.
+    + apply Bd. reflexivity.
+  - split; [exact Inc|]. intros asg vs Hvs. apply (V _ (ext_refl _)). eapply bvals_ext; eassumption.
 Qed.
 
 Theorem add_sum_n_weighted_bits_naive_final fresh basis inp s res s' :
@@ -170,3 +187,12 @@ Proof.
   apply andb_true_iff in H as (H & _). apply andb_true_iff in H as (H1 & _).
   exists c, res, s'. split; [reflexivity|]. split; [exact E|]. apply N.leb_le, H1.
 Qed.
+
+Theorem weighted_documented_bound_refuted :
+  exists c res s',
+    bare (length refuting_weights) = Ok c /\
+    run hex_label (add_sum_n_weighted_bits (BEnum XAIG)
+                     (combine refuting_weights (in_labels (length refuting_weights) 0))) (mkB c 1) = Ok (res, s') /\
+    (9 * N.of_nat (length refuting_weights) <
+     2 * N.of_nat (length (added c (bc s'))) + 4 * N.of_nat (length res))%N.
+Proof. exact weighted_bound_refuted. Qed.
